@@ -238,18 +238,28 @@ const fragHeader = "From CV Require Import C01.Cases.\nDefinition V := TVoid."
 // conditional expression's value is not boxed; the narrow keys are listed in known_findings/C01.json
 func knownCondShape(p *Prog) string {
 	found := ""
-	var unboxed func(e *Expr) bool
-	unboxed = func(e *Expr) bool { // a conditional with exactly one branch of an optional type
+	// a conditional that can yield a value not boxed to its (optional) static type: exactly one
+	// branch has an optional type, or a branch is itself such a conditional
+	var raw func(e *Expr) bool
+	raw = func(e *Expr) bool {
 		if e == nil || e.Op != "cond" || e.A.Typ == nil || e.Bx.Typ == nil {
 			return false
 		}
-		return (e.A.Typ.K == kOpt) != (e.Bx.Typ.K == kOpt)
+		return (e.A.Typ.K == kOpt) != (e.Bx.Typ.K == kOpt) || raw(e.A) || raw(e.Bx)
+	}
+	// the value passes unchanged through a force-unwrap of a non-Some value
+	var through func(e *Expr) bool
+	through = func(e *Expr) bool {
+		if raw(e) {
+			return true
+		}
+		return e != nil && e.Op == "force" && through(e.A)
 	}
 	s := collect(p)
 	for _, e := range s.exprs {
 		x := *e
-		if (x.Op == "optmem" || x.Op == "coal" || x.Op == "force" || x.Op == "eq") && unboxed(x.A) {
-			found = "cond-unboxed:" + x.Op
+		if x.Op == "optmem" && through(x.A) {
+			found = "cond-unboxed:optmem"
 		}
 	}
 	return found
